@@ -34,11 +34,13 @@ class Rec2(D.Rec):
         D.Rec.__init__(self, head + sep + self.plain_dump)
         self.ext_dump = d
 
-def canon(rec):
-    """the abstract state of a dump, in the format of the spec driver"""
+def canon(rec, override=None):
+    """the abstract state of a dump, in the format of the spec driver (`override`: see spec_normalize)"""
     out = []
     for h in sorted(rec.nodes):
         n = rec.nodes[h]
+        if override and h in override:
+            n = override[h]
         k = n.kind
         if k in ('el', 'at'):
             q = rec.x.get(h, (0, None))[1]
@@ -94,6 +96,59 @@ def spec_steps(triples, shards=None):
     while len(res) < len(lines):
         res.append(('crash', ''))
     return res
+
+# ------------------------------------------------------------------ Element.normalize (op NZ): the DOM Level 1 oracle in python
+# "Puts all Text nodes in the full depth of the sub-tree underneath this Element into a normal form where only markup (e.g.,
+# tags, comments, processing instructions, CDATA sections, and entity references) separates Text nodes, i.e., there are no
+# adjacent Text nodes."  Reading (R4 of Spec/DomL1.v: a string that is no character data is refused): a Text node is merged
+# into the Text node in front of it unless the concatenation is not storable ("]]>" would appear, e.g. "]]" in front of ">");
+# such a pair stays as it is and the walk goes on from the second node.  In the merged-text view (text_expanded) the child
+# lists the API shows hold no Text nodes at all (maximal runs are one ExpandedText each): nothing is to be done.
+# The expected state is computed here from the dump BEFORE the call, independently of the model (Model/DomNormalize.v).
+def storable_text(s):
+    def is_char(c):
+        o = ord(c)
+        return o in (9, 10, 13) or 0x20 <= o <= 0xD7FF or 0xE000 <= o <= 0xFFFD or 0x10000 <= o <= 0x10FFFF
+    return all(is_char(c) and c not in '<&' for c in s) and ']]>' not in s
+
+class _N:
+    """a node of the expected state: copy of a dump node with data / parent / child list replaced"""
+    def __init__(self, n, data, p, c):
+        for f in ('h', 'kind', 'name', 'a', 'n', 'ow'):
+            setattr(self, f, getattr(n, f))
+        self.data, self.p, self.c = data, p, c
+
+def spec_normalize(prev, op, view):
+    """-> (result class, canonical state) DOM Level 1 prescribes for normalize on handle op[1] in the state `prev`"""
+    N = prev.nodes
+    h = op[1]
+    if h not in N or N[h].kind != 'el':
+        return ('na', canon(prev))
+    if view.startswith('m'):
+        return ('ok', canon(prev))
+    ov = {}
+    def cur(x):
+        return ov[x] if x in ov else N[x]
+    def go(e, depth):
+        if depth > len(N): return
+        out, last = [], None
+        for c in list(cur(e).c):
+            n = N.get(c)
+            if n is not None and n.kind == 'tx':
+                if last is not None and cur(last).data not in ('~', '!') and n.data not in ('~', '!'):
+                    t = dec(cur(last).data) + dec(n.data)
+                    if storable_text(t):
+                        ov[last] = _N(N[last], enc(t), cur(last).p, cur(last).c)
+                        ov[c] = _N(n, n.data, None, n.c)          # removed: no parent, keeps its data
+                        continue
+                last = c; out.append(c)
+            else:
+                last = None; out.append(c)
+                if n is not None and n.kind == 'el':
+                    go(c, depth + 1)
+        ov[e] = _N(N[e], cur(e).data, cur(e).p, out)
+    go(h, 0)
+    return ('ok', canon(prev, ov))
 
 def compare_step(prev, rec, spec_res, spec_state):
     """-> None when the implementation conforms on this call, else (clause, detail)"""
@@ -278,7 +333,10 @@ def analyse(cases, lines, tag, summary, c15=True):
             rec = Rec2(t)
             if i > 0 and prev is not None and not prev.skipped and not rec.skipped and not prev.bad and not rec.bad:
                 op = ops[i - 1]
-                if op[0] != 'Q':
+                if op[0] == 'NZ':
+                    # normalize is not in the extracted Spec/DomL1.v: the expected answer comes from spec_normalize above
+                    steps.append((ci, i, prev, rec, spec_normalize(prev, op, view)))
+                elif op[0] != 'Q':
                     key = (prev.ext_dump, D.mkop(op))
                     if key not in uniq:
                         uniq[key] = len(triples)
@@ -293,8 +351,11 @@ def analyse(cases, lines, tag, summary, c15=True):
     for ci, i, prev, rec, k in steps:
         docs, ops, view = cases[ci]
         op = ops[i - 1]
-        sres, sstate = out[k]
+        sres, sstate = k if isinstance(k, tuple) else out[k]
         summary['ops'] += 1
+        if op[0] == 'NZ':
+            cnt('normalize:calls'); cnt('normalize:view-' + view[0])
+            cnt('normalize:' + ('not-applicable' if sres == 'na' else 'merged-something' if sstate != canon(prev) else 'nothing-to-merge'))
         res = rec.result
         cls = res.split(':')[0] + (':' + res.split(':')[1] if res.startswith('err') else '')
         cnt('op:' + op[0]); cnt('result:' + cls); cnt('spec:' + sres.split(':')[0] + (':' + sres.split(':')[1] if sres.startswith('err') else ''))
@@ -307,7 +368,7 @@ def analyse(cases, lines, tag, summary, c15=True):
         if v: vs.append(v)
         for clause, detail in vs:
             f = {'docs': docs, 'ops': [list(o) for o in ops[:i]], 'clause': clause, 'detail': detail, 'tag': tag,
-                 'op': list(op), 'impl': res, 'spec': sres, 'kinds': list(kinds_at(prev, op))}
+                 'op': list(op), 'impl': res, 'spec': sres, 'kinds': list(kinds_at(prev, op)), 'view': view}
             fid = classify13(f)
             key = (clause, op[0], cls, sres.split(':')[0], fid and fid[0], tuple(f['kinds'][:2]) if not fid else None)
             summary['n13'][str(fid[0] if fid else 'unlisted')] = summary['n13'].get(str(fid[0] if fid else 'unlisted'), 0) + 1
@@ -325,7 +386,7 @@ def analyse(cases, lines, tag, summary, c15=True):
                     if not feats:
                         cnt('c15:already-broken'); continue
                 f = {'docs': docs, 'ops': [list(o) for o in ops[:i]], 'clause': clause, 'detail': detail, 'tag': tag, 'op': list(op), 'impl': res,
-                     'kinds': list(kinds_at(prev, op)), 'serial': {k: dec(v) for k, v in rec.serial.items()}, 'feats': sorted(feats)}
+                     'kinds': list(kinds_at(prev, op)), 'serial': {k: dec(v) for k, v in rec.serial.items()}, 'feats': sorted(feats), 'view': view}
                 fid = classify15(f)
                 key = (clause, op[0], fid and fid[0])
                 summary['n15'][str(fid[0] if fid else 'unlisted')] = summary['n15'].get(str(fid[0] if fid else 'unlisted'), 0) + 1
@@ -557,6 +618,14 @@ def campaign(run):
     for d, o, v in H[:2]:
         s['samples'].append({'kind': 'random history', 'documents': d, 'ops': [D.show_op(x) for x in o]})
     s['times']['random'] = round(time.time() - t0, 1); t0 = time.time()
+    # histories with Element.normalize (generator of checks/domlib.py, own random stream; both views)
+    NH, nhist = D.normalize_histories(random.Random('normalize13-%d' % run.seed), 1500 if thorough else 250, 24)
+    for k, v in nhist.items(): s['hist'][k] = s['hist'].get(k, 0) + v
+    for k in range(0, len(NH), 1000):
+        analyse(NH[k:k + 1000], run_ext(NH[k:k + 1000]), 'normalize', s)
+    for d, o, v in NH[:1] + NH[-1:]:
+        s['samples'].append({'kind': 'normalize history', 'documents': d, 'view': v, 'ops': [D.show_op(x) for x in o]})
+    s['times']['normalize'] = round(time.time() - t0, 1); t0 = time.time()
     H, hist = histories15(rng, 6000 if thorough else 500, 30)
     for k, v in hist.items(): s['hist'][k] = s['hist'].get(k, 0) + v
     for k in range(0, len(H), 1000):
@@ -632,14 +701,14 @@ def facts_tie(run, count=None):
     return res
 
 # ------------------------------------------------------------------ shrinking, replay
-def step_violations(docs, ops, prop):
+def step_violations(docs, ops, prop, view='r'):
     """run a history on the implementation; -> list per op index of [(clause, detail, f)]"""
-    line = run_ext([(docs, ops, 'r')], shards=1)[0]
+    line = run_ext([(docs, ops, view)], shards=1)[0]
     if ' # ' not in line:
         return None, line
     s = {'cases': 0, 'ops': 0, 'c13': [], 'c15': [], 'crashes': [], 'hist': {}, 'nontrivial': set(), 'n13': {}, 'n15': {},
          '_seen13': set(), '_seen15': set()}
-    analyse([(docs, ops, 'r')], [line], 'replay', s)
+    analyse([(docs, ops, view)], [line], 'replay', s)
     return s['c13' if prop == 'c13' else 'c15'], line
 
 def same_failure(f, g):
@@ -648,14 +717,15 @@ def same_failure(f, g):
 
 def shrink(f, prop):
     docs = f['docs']
+    view = f.get('view', 'r').split('!')[0]
     ops = [tuple(o) for o in f['ops']]
     def fails(cand):
-        vs, _ = step_violations(docs, cand, prop)
+        vs, _ = step_violations(docs, cand, prop, view)
         return bool(vs) and any(same_failure(f, g) for g in vs)
     if not fails(ops):
         return f
     small = D.ddmin(ops, fails)
-    vs, _ = step_violations(docs, small, prop)
+    vs, _ = step_violations(docs, small, prop, view)
     g = [x for x in vs if same_failure(f, x)][0]
     g = dict(g); g['shrunk_from'] = len(ops)
     return g
@@ -670,7 +740,8 @@ def replay_file(path, prop):
     if 'docs' not in d:
         return 0
     docs, ops = d['docs'], [tuple(o) for o in d['ops']]
-    line = run_ext([(docs, ops, 'r')], shards=1)
+    view = d.get('view', 'r').split('!')[0]
+    line = run_ext([(docs, ops, view)], shards=1)
     print('documents:', docs)
     if not line or ' # ' not in line[0]:
         print('implementation: no output'); return 1
@@ -679,7 +750,7 @@ def replay_file(path, prop):
     recs = [Rec2(t) for t in txt]
     out = spec_steps([(recs[i - 1].ext_dump, D.mkop(ops[i - 1]), ew) for i in range(1, len(recs))], shards=1)
     for i in range(1, len(recs)):
-        sres, sstate = out[i - 1]
+        sres, sstate = spec_normalize(recs[i - 1], ops[i - 1], view) if ops[i - 1][0] == 'NZ' else out[i - 1]
         print('%2d %-44s implementation: %-26s DOM Level 1: %s' % (i, D.show_op(ops[i - 1]), recs[i].result, sres))
         for v in (compare_step(recs[i - 1], recs[i], sres, sstate), atomicity(recs[i - 1], recs[i])):
             if v: print('      C13 %s: %s' % v)
@@ -687,8 +758,8 @@ def replay_file(path, prop):
             for v in reparse_violation(recs[i]):
                 print('      C15 %s: %s' % v)
         print('      serialisation:', {k: dec(v) for k, v in recs[i].serial.items()})
-    ml = D.run_model([D.mkcase(docs, ops, 'r')], D.run_impl([D.mkcase(docs, ops, 'r')], shards=1), shards=1)
-    il = D.run_impl([D.mkcase(docs, ops, 'r')], shards=1)
+    ml = D.run_model([D.mkcase(docs, ops, view)], D.run_impl([D.mkcase(docs, ops, view)], shards=1), shards=1)
+    il = D.run_impl([D.mkcase(docs, ops, view)], shards=1)
     if ml and il:
         print('model vs implementation: first differing record =', D.first_mismatch(il[0], ml[0]))
     return 0
